@@ -22,6 +22,7 @@ import (
 	"github.com/99designs/gqlgen/graphql"
 	"github.com/99designs/gqlgen/graphql/handler"
 	"github.com/99designs/gqlgen/graphql/handler/extension"
+	"github.com/99designs/gqlgen/graphql/handler/lru"
 	"github.com/99designs/gqlgen/graphql/handler/transport"
 
 	"verifharness/gen"
@@ -396,6 +397,75 @@ func Run(c *gen.Ctx) error {
 			gateDescr = append(gateDescr, calcCase{Kind: "gate", Query: q, Vars: rawVars, Table: tbl, Observed: reported, Limit: &l, Rejected: &rj, Exec: &ex})
 		}
 	}
+	// ---- gate histories: ONE server with a query cache (as NewDefaultServer has) answers the same query text
+	// with different variable values; the custom cost depends on an argument that comes from the variable
+	{
+		q := `query Q($n: Int, $m: Int) { items(n: $n) { name } a { items(n: $m) { count } kids(n: 2) { id } } }`
+		tbl := table{"Query.items": {Kind: "arg"}, "A.items": {Kind: "arg"}, "A.kids": {Kind: "add", K: 1}}
+		doc, errs := gqlparser.LoadQuery(schema, q)
+		if errs != nil {
+			return fmt.Errorf("history query does not validate: %v", errs)
+		}
+		op := doc.Operations[0]
+		nhist := 12
+		if c.Thorough() {
+			nhist = 120
+		}
+		rh := r.Fork(5)
+		for h := 0; h < nhist; h++ {
+			limit := []int{20, 50, 200, 5}[h%4]
+			execCalls := 0
+			srv := handler.New(mkES(schema, tbl, &execCalls))
+			srv.AddTransport(transport.POST{})
+			if h%3 != 2 {
+				srv.SetQueryCache(lru.New[*ast.QueryDocument](10))
+			}
+			srv.Use(extension.FixedComplexityLimit(limit))
+			sr := &statsReader{}
+			srv.Use(sr)
+			for step := 0; step < 4; step++ {
+				rawVars := map[string]any{"n": []int{1, 2, 5, 40, 1000}[rh.Intn(5)], "m": []int{0, 1, 3, 30}[rh.Intn(4)]}
+				if step == 2 {
+					rawVars["n"] = 100000
+				}
+				vars, verr := validator.VariableValues(schema, op, rawVars)
+				if verr != nil {
+					return fmt.Errorf("history variables: %v", verr)
+				}
+				before := execCalls
+				sr.last = nil
+				body, _ := json.Marshal(map[string]any{"query": q, "variables": rawVars})
+				req := httptest.NewRequest(http.MethodPost, "/query", strings.NewReader(string(body)))
+				req.Header.Set("Content-Type", "application/json")
+				w := httptest.NewRecorder()
+				srv.ServeHTTP(w, req)
+				var resp struct {
+					Errors []struct {
+						Message string `json:"message"`
+					} `json:"errors"`
+				}
+				_ = json.Unmarshal(w.Body.Bytes(), &resp)
+				rejected, reported := false, 0
+				for _, e := range resp.Errors {
+					if m := rejectRe.FindStringSubmatch(e.Message); m != nil {
+						rejected = true
+						reported, _ = strconv.Atoi(m[1])
+					}
+				}
+				if !rejected {
+					if len(resp.Errors) > 0 || sr.last == nil {
+						return fmt.Errorf("gate history: unexpected response %s", w.Body.String())
+					}
+					reported = sr.last.Complexity
+				}
+				sels := selsCoq(schema, op.SelectionSet, vars, feat)
+				gate.Add(fmt.Sprintf("{| gc_calc := {| cc_custom := %s; cc_impls := %s; cc_sels := %s; cc_observed := %s |}; gc_limit := %s; gc_rejected := %s; gc_exec_calls := %s |}",
+					tbl.coq(), impls, sels, gen.Z(int64(reported)), gen.Z(int64(limit)), gen.Bool(rejected), gen.Z(int64(execCalls-before))))
+				l, rj, ex := limit, rejected, execCalls-before
+				gateDescr = append(gateDescr, calcCase{Kind: fmt.Sprintf("gate-history %d step %d (query cache: %v)", h, step, h%3 != 2), Query: q, Vars: rawVars, Table: tbl, Observed: reported, Limit: &l, Rejected: &rj, Exec: &ex})
+			}
+		}
+	}
 	if err := meta.AddCaseFile(calc, calcDescr); err != nil {
 		return err
 	}
@@ -404,7 +474,7 @@ func Run(c *gen.Ctx) error {
 	}
 	meta.Evaluations = add.Len() + calc.Len() + gate.Len()
 	meta.DistinctNontrivial = len(distinct)
-	meta.Rule = "safeAdd: 20x20 boundary grid of int plus random pairs straddling the overflow edge; Calculate: random valid operations (fragments, interfaces, unions, variables, introspection fields) from the seeded generator x random custom-complexity tables (constants incl. MaxInt/MinInt/negatives, child+k, child*k with Go wrap, argument-dependent); gate: the same through handler.Server+POST with FixedComplexityLimit around the computed value. distinct_nontrivial counts distinct (operation text, custom table) pairs of the Calculate stream with a non-empty selection set and a non-empty table."
+	meta.Rule = "safeAdd: 20x20 boundary grid of int plus random pairs straddling the overflow edge; Calculate: random valid operations (fragments, interfaces, unions, variables, introspection fields) from the seeded generator x random custom-complexity tables (constants incl. MaxInt/MinInt/negatives, child+k, child*k with Go wrap, argument-dependent); gate: the same through handler.Server+POST with FixedComplexityLimit around the computed value; gate histories: one server (with and without an LRU query cache) answering the same query text four times with different variable values that drive an argument-dependent custom cost. distinct_nontrivial counts distinct (operation text, custom table) pairs of the Calculate stream with a non-empty selection set and a non-empty table."
 	meta.Samples = []any{calcDescr[0], gateDescr[0], addDescr[len(grid)*len(grid)-1]}
 	meta.Distribution = map[string]any{"add_cases": add.Len(), "calc_cases": calc.Len(), "gate_cases": gate.Len(), "features": feat,
 		"saturated_to_maxint": saturated, "tables_with_negative_const": negatives, "generated_but_invalid_discarded": invalid}
